@@ -368,8 +368,8 @@ Definition in_domain (c : call) : bool :=
   | FSubsetp => is_list (c_seq c) && is_list (c_seq2 c) && not_test_not (c_test c)
   | FEvery | FNotany | FNotevery => not_test_not (c_test c)
   | FSome =>
-      not_test_not (c_test c) &&
-      (negb (c_flag c) || ((c_nseq c =? 1)%nat && negb (existsb (pred_app (c_pred c)) l1)))   (* KF some returns t *)
+      (* the element-answering predicate (c_flag) is only written for one sequence *)
+      not_test_not (c_test c) && (negb (c_flag c) || (c_nseq c =? 1)%nat)
   | FMap => true
   | FMapcar => is_list (c_seq c) && ((c_nseq c =? 1)%nat || is_list (c_seq2 c))
   | FReduce =>
